@@ -154,6 +154,26 @@ func TestC14_Keys(t *testing.T) {
 	rapid.Check(t, func(rt *rapid.T) {
 		sc := c14Keys{}
 		sc.Groups = rapid.SliceOfNDistinct(c14GroupGen(), 1, 4, func(s string) string { return s }).Draw(rt, "groups")
+		long := 0
+		if rapid.IntRange(0, 3).Draw(rt, "longnames") == 0 {
+			// long names with a long common part (tenant / pipeline prefixes) that differ only at the end; the longest
+			// checkpoint key still fits a Couchbase key (250 bytes: 16 prefix + name + 12 ":checkpoint:" + 5 digits)
+			long = rapid.OneOf(rapid.IntRange(40, 193), rapid.SampledFrom([]int{64, 100, 128, 150, 180, 187, 188, 189, 190, 193})).Draw(rt, "commonlen")
+			common := strings.Repeat(rapid.SampledFrom([]string{"t", "tenant-a_", "x:"}).Draw(rt, "commonunit"), long)[:long]
+			for i, g := range sc.Groups {
+				if len(g) > 12 {
+					g = strings.ToValidUTF8(g[:12], "")
+				}
+				sc.Groups[i] = common + g
+			}
+			seen := map[string]bool{}
+			for i, g := range sc.Groups {
+				for seen[g] {
+					g += "_"
+				}
+				seen[g], sc.Groups[i] = true, g
+			}
+		}
 		sc.Vbs = rapid.SliceOfNDistinct(rapid.OneOf(rapid.IntRange(0, 1023), rapid.IntRange(0, 65535), rapid.SampledFrom([]int{0, 1, 12, 112, 65535})), 1, 4, func(i int) int { return i }).Draw(rt, "vbs")
 		journal("C14", "c14keys", sc)
 		d := c14ExecKeys(sc)
@@ -165,7 +185,14 @@ func TestC14_Keys(t *testing.T) {
 		for _, g := range sc.Groups {
 			tricky = tricky || strings.ContainsAny(g, ":0123456789")
 		}
-		record("C14", sc, tricky && len(sc.Groups) >= 2, "key_cases")
+		labs := []string{"key_cases"}
+		if long > 0 && len(sc.Groups) >= 2 {
+			labs = append(labs, "long_names_sharing_a_prefix")
+			if long >= 150 {
+				labs = append(labs, "long_names_sharing_150_bytes_or_more")
+			}
+		}
+		record("C14", sc, (tricky || long > 0) && len(sc.Groups) >= 2, labs...)
 	})
 }
 
@@ -273,7 +300,9 @@ func c14ExecMember(sc c14Member) string {
 
 func TestC14_MembershipKeys(t *testing.T) {
 	rapid.Check(t, func(rt *rapid.T) {
-		sc := c14Member{Group: rapid.OneOf(rapid.StringMatching(`[a-zA-Z0-9_:-]{0,10}`), rapid.SampledFrom([]string{"", "g", "a:instance:all", "instance", "x:y"})).Draw(rt, "group")}
+		sc := c14Member{Group: rapid.OneOf(rapid.StringMatching(`[a-zA-Z0-9_:-]{0,10}`), rapid.SampledFrom([]string{"", "g", "a:instance:all", "instance", "x:y"}),
+			// up to the longest name whose heartbeat key (16 prefix + name + 10 ":instance:" + 36 uuid) fits a 250-byte key
+			rapid.Map(rapid.IntRange(11, 188), func(n int) string { return strings.Repeat("grp-", 47)[:n] })).Draw(rt, "group")}
 		if d := c14ExecMember(sc); d != "" {
 			violation(rt, "C14", "c14member", sc, "%s", d)
 		}
